@@ -108,6 +108,8 @@ type World struct {
 	Voided map[string]bool
 	// LastOp describes the op executed last (for monitors)
 	LastOp OpInfo
+	// Snap is the checklist of a resync pass in progress (first phase done, iterations pending), by address
+	Snap map[uint32]schedulerplugin.VerifResyncEntry
 	// Mon is scratch space of the monitors (state they carry from step to step)
 	Mon map[string]interface{}
 }
@@ -127,7 +129,7 @@ func nsIndexer() cache.Indexer {
 
 // NewWorld builds the plugin with the given configuration (Init = ConfigurePool on an empty store).
 func NewWorld(conf Conf, rng *rand.Rand) (*World, error) {
-	w := &World{Conf: conf, Pools: conf.Pools, Rng: rng, Cnt: &Counter{}, nextUID: 1, Voided: map[string]bool{}, Mon: map[string]interface{}{},
+	w := &World{Conf: conf, Pools: conf.Pools, Rng: rng, Cnt: &Counter{}, nextUID: 1, Voided: map[string]bool{}, Mon: map[string]interface{}{}, Snap: map[uint32]schedulerplugin.VerifResyncEntry{},
 		Prov:   &Provider{Assigned: map[uint32]string{}},
 		podIdx: nsIndexer(), stsIdx: nsIndexer(), dpIdx: nsIndexer(), poolIdx: nsIndexer()}
 	var objs []runtime.Object
@@ -506,9 +508,18 @@ func (w *World) Digest() string {
 	for _, ip := range pips {
 		plog = append(plog, fmt.Sprintf("%d:%s", ip, strings.Join(perIP[ip], ">")))
 	}
+	var snapIPs []uint32
+	for ip := range w.Snap {
+		snapIPs = append(snapIPs, ip)
+	}
+	sort.Slice(snapIPs, func(i, j int) bool { return snapIPs[i] < snapIPs[j] })
+	var snap []string
+	for _, ip := range snapIPs {
+		snap = append(snap, strconv.FormatUint(uint64(ip), 10))
+	}
 	return "alloc{" + strings.Join(alloc, ";") + "} free{" + strings.Join(free, ",") + "} store{" +
 		strings.Join(store, ";") + "} pods{" + strings.Join(pods, ";") + "} events{" + strings.Join(evs, ",") +
-		"} prov{" + strings.Join(prov, ",") + "} plog{" + strings.Join(plog, ";") + "}"
+		"} prov{" + strings.Join(prov, ",") + "} plog{" + strings.Join(plog, ";") + "} snap{" + strings.Join(snap, ",") + "}"
 }
 
 // ViewDigest describes the informer views and pending events (not produced by the code under test; used by the
